@@ -338,6 +338,9 @@ fn main() {
     if argv.len() < 4 {
         vharness::tool_error("usage: sess <exe> <script.json> <out.ndjson>");
     }
+    if std::env::var_os("SESS_LOG").is_some() {
+        let _ = env_logger::Builder::new().filter_level(log::LevelFilter::Debug).try_init();
+    }
     let script = read_json(&argv[2]);
     let mut out = NdjsonOut::create(&argv[3]);
     let elf = Elf::load(&argv[1]);
